@@ -3,8 +3,9 @@
 An OR-Set supports both add and remove operations with add-wins
 semantics on concurrent operations. Each addition generates a unique
 tag ``(node_id, sequence_number)``. Remove deletes all *observed* tags
-for an element. If a concurrent add creates a new tag, it survives
-the remove (add-wins).
+for an element and remembers them as removed, so that a later merge with
+a replica that still holds those tags does not bring the element back.
+If a concurrent add creates a new tag, it survives the remove (add-wins).
 
 Example::
 
@@ -38,11 +39,12 @@ class ORSet:
         node_id: Identifier for this replica.
     """
 
-    __slots__ = ("_entries", "_node_id", "_seq")
+    __slots__ = ("_entries", "_node_id", "_removed", "_seq")
 
     def __init__(self, node_id: str):
         self._node_id = node_id
         self._entries: dict[Any, set[tuple[str, int]]] = {}
+        self._removed: set[tuple[str, int]] = set()
         self._seq: int = 0
 
     @property
@@ -80,8 +82,10 @@ class ORSet:
         Args:
             element: The element to remove.
         """
-        if element in self._entries:
-            self._entries[element].clear()
+        tags = self._entries.get(element)
+        if tags:
+            self._removed |= tags
+            tags.clear()
 
     def contains(self, element: Any) -> bool:
         """Check if an element is in the set.
@@ -98,30 +102,42 @@ class ORSet:
         """Merge another OR-Set into this one.
 
         For each element, the resulting tag set is the union of both
-        replicas' tags. This means:
+        replicas' tags minus every tag either replica has removed. This
+        means:
         - Elements added on either side are present.
         - An element removed on one side but concurrently added on
           the other survives (add-wins).
+        - A tag observed by a remove on either side stays removed.
 
         Args:
             other: Another ORSet to merge from.
         """
+        self._removed |= other._removed
         for element, other_tags in other._entries.items():
             if element not in self._entries:
                 self._entries[element] = set(other_tags)
             else:
                 self._entries[element] |= other_tags
+        if self._removed:
+            for tags in self._entries.values():
+                tags -= self._removed
 
     def to_dict(self) -> dict:
         """Serialize to a plain dict."""
-        entries = {}
-        for element, tags in self._entries.items():
-            entries[str(element)] = [list(tag) for tag in sorted(tags)]
+        # A list of [element, tags] pairs: elements keep their type
+        # (1 and "1" are different elements).
+        entries = [
+            [element, [list(tag) for tag in sorted(tags)]]
+            for element, tags in sorted(
+                self._entries.items(), key=lambda kv: (type(kv[0]).__name__, repr(kv[0]))
+            )
+        ]
         return {
             "type": "ORSet",
             "node_id": self._node_id,
             "seq": self._seq,
             "entries": entries,
+            "removed": [list(tag) for tag in sorted(self._removed)],
         }
 
     @classmethod
@@ -133,8 +149,12 @@ class ORSet:
         """
         s = cls(data["node_id"])
         s._seq = data["seq"]
-        for element, tags in data["entries"].items():
+        entries = data["entries"]
+        # Older dumps used a dict keyed by str(element).
+        pairs = entries.items() if isinstance(entries, dict) else entries
+        for element, tags in pairs:
             s._entries[element] = {tuple(tag) for tag in tags}
+        s._removed = {tuple(tag) for tag in data.get("removed", ())}
         return s
 
     def __contains__(self, element: Any) -> bool:
@@ -155,4 +175,4 @@ class ORSet:
         # Compare only non-empty tag sets
         self_active = {e: tags for e, tags in self._entries.items() if tags}
         other_active = {e: tags for e, tags in other._entries.items() if tags}
-        return self_active == other_active
+        return self_active == other_active and self._removed == other._removed
